@@ -270,3 +270,20 @@ Lemma delete_first_witness :
   let s := run step sched (init false scripts) in
   (forall t, pc_of s t = Idle) /\ cache s 0 = Some 3 /\ db s 0 = 5 /\ raced s = false.
 Proof. vm_compute. split; [intros [|[|[|t]]]; reflexivity | repeat split]. Qed.
+
+(* ---------- a call whose context is cancelled never reaches the database ---------- *)
+Lemma cancelled_no_query s s' t : step (Thr t) s = Some s' -> t_cancel (ts s t) = true ->
+  dbq s' = dbq s /\ t_cancel (ts s' t) = true /\
+  (forall f, pc_of s t = RGet f -> pc_of s' t = REnd f None /\ trace s' = trace s /\ cache s' = cache s) /\
+  (querying (pc_of s' t) = true -> querying (pc_of s t) = true).
+Proof.
+  unfold pc_of. simpl. intros H C. rewrite C in H.
+  destruct (t_pc (ts s t)) eqn:P;
+    repeat match type of H with
+           | match ?x with _ => _ end = _ => destruct x eqn:?
+           | (if ?x then _ else _) = _ => destruct x eqn:?
+           end; try discriminate; inversion H; subst; simpl; rewrite ?upd_same; simpl;
+    repeat split; auto; try (intros; discriminate); try congruence;
+    try (intros f0 E; inversion E; subst; repeat split; reflexivity).
+  destruct (k_writer c); discriminate.
+Qed.
